@@ -426,6 +426,9 @@ def check_pure(model, rep):
 
 
 def check(model, rep):
+    # hidden state Python keeps outside the objects (not modelled by the evaluator): reported before anything else is evaluated
+    from checks.solver_common import package_lints as _package_lints
+    _package_lints(model, rep, 'C09.hidden-state', ('/mechanical_objects/',))
     rep.explain('C09: force / bending / contact formulas of SpurGear, HelicalGear, WormWheel (and the role mapping of '
                 'WormGear) extracted by gated value numbering and compared, per mating role, with specification terms; '
                 'helical virtual-teeth geometry and worm-wheel normal-pitch form; ValueError exits under missing mate '
